@@ -596,6 +596,14 @@ class C17:
                 out["pairs"][name] = {"got": run(name, f, snap), "ref": ref if r is None else r, "names": names, "must": must}
             for i, (p, cp) in enumerate(zip(case["parts"], case["colparts"])):
                 dk(f"dask_h:p{i}", lambda: pdask.histogramdd(arr(p, cp), "fixed_width", **kwb))
+            # the 1-D dask facade takes data of any dimension ("can have more than one dimension"), chunked in any way along
+            # rows AND columns: the histogram of all entries, as h1 of the equivalent numpy array
+            w1 = width[0] if isinstance(width, list) else width
+            ref1 = run("ref1", lambda: h1(A, "fixed_width", adaptive=True, bin_width=w1), s1)
+            for i, (p, cp) in enumerate(zip(case["parts"], case["colparts"])):
+                out["pairs"][f"dask_h1_of_2d:p{i}"] = {
+                    "got": run(f"dask_h1_of_2d:p{i}", lambda: pdask.h1(arr(p, cp), "fixed_width", bin_width=w1), s1),
+                    "ref": ref1, "names": None, "must": True}
             p, cp = case["parts"][-1], case["colparts"][-1]
             dk("dask_h_list", lambda: pdask.histogramdd(cols(list), "fixed_width", **kwb))
             dk("dask_h_tuple", lambda: pdask.histogramdd(cols(tuple), "fixed_width", **kwb))
